@@ -38,6 +38,8 @@ var (
 	Seed    = envUint("VERIF_SEED", 1)
 	Shard   = int(envUint("VERIF_SHARD", 0))
 	NShards = int(envUint("VERIF_NSHARDS", 1))
+	// QuickScale multiplies the rapid case counts of the quick tier.
+	QuickScale = int(envUint("VERIF_QUICK_SCALE", 1))
 )
 
 func envOr(k, d string) string {
@@ -416,6 +418,15 @@ func Prop[C any](t *testing.T, p P, gen func(*rapid.T) C, check func(C, *Rec) er
 		return
 	}
 	n := Scale(p.Quick, p.Thorough)
+	if !Thorough() && QuickScale > 1 {
+		// spec.json "quick_scale": the quick-tier counts were tuned on a heavily
+		// loaded machine; properties whose quick tier finishes in a few seconds
+		// run more rapid cases (never more than the thorough tier)
+		n *= QuickScale
+		if p.Thorough > 0 && n > p.Thorough {
+			n = p.Thorough
+		}
+	}
 	if NShards > 1 {
 		n = (n + NShards - 1) / NShards
 	}
